@@ -85,6 +85,7 @@ struct RScn
     rules : Vec<XRule>, ord : Vec<String>,
     dict : BTreeMap<String, String>, rids : BTreeMap<String, String>, shs : BTreeMap<String, String>,
     out : Vec<Value>,
+    run_toggle : bool,
 }
 
 fn pause() { std::thread::sleep(std::time::Duration::from_millis(9)); }
@@ -194,7 +195,11 @@ impl RScn
         let st = self.state();
         self.out.push(json!({"a" : if is_build { "build" } else { "clean" }, "g" : goal, "state" : st}));
         let _ = std::fs::remove_dir_all(&self.xlog); std::fs::create_dir_all(&self.xlog).unwrap();
-        let mut args = vec![if is_build { "build" } else { "clean" }];
+        /* `ruler run <target>` builds the target like `ruler build <target>` and then tries to execute it (the outcome of that execution
+           is not reported unless it cannot be started): now and then used in place of a goal-restricted build */
+        let use_run = is_build && goal != "" && self.run_toggle;
+        self.run_toggle = !self.run_toggle;
+        let mut args = vec![if use_run { "run" } else if is_build { "build" } else { "clean" }];
         if goal != "" { args.push(goal); }
         let o = Command::new(&self.bin).args(&args).current_dir(&self.dir).env("RULER_XLOG", &self.xlog).output().expect("run ruler");
         let (so, se) = (String::from_utf8_lossy(&o.stdout).to_string(), String::from_utf8_lossy(&o.stderr).to_string());
@@ -224,7 +229,14 @@ impl RScn
         let mut stat = vec![];
         for l in strip(&so).lines() { for st in ["Built", "Recovered", "Up-to-date", "Outdated", "Downloaded"] { if let Some(p) = l.trim_start().strip_prefix(&format!("{}: ", st)) { stat.push(json!([p, st])); } } }
         let mut errs = vec![];
-        let se_t = se.trim().to_string();
+        /* with `run` the executed target shares ruler's stderr: keep only what ruler itself can have written */
+        let known = ["File not found: ", "Target file missing after running build command: ", "Command executed but errored", "The following targets failed", "This might mean",
+                     "Error resolving rule", "Dependence search failed", "Error history file not found", "Rule history error", "Weird", "Target built but failed to execute", "panicked"];
+        let se_t = if use_run
+            { let mut keep = vec![]; let mut in_contra = false;
+              for l in se.lines() { if l.starts_with("The following targets failed") { in_contra = true; } if in_contra || known.iter().any(|k| l.starts_with(k) || l.contains("panicked")) { keep.push(l); } if l.starts_with("This might mean") { in_contra = false; } }
+              keep.join("\n").trim().to_string() }
+            else { se.trim().to_string() };
         let path_rid = |rules : &Vec<XRule>, p : &str| -> String { for (k, r) in rules.iter().enumerate() { if r.tg.iter().any(|t| t == p) { return rid(r, k); } } "".to_string() };
         let verdict =
         if o.status.code() == Some(101) || se_t.contains("panicked") { "panic".to_string() }
@@ -291,7 +303,7 @@ pub fn real_histories(bin : &str, base : &str, n : usize, seed : u64) -> Vec<Val
         let dir = Path::new(base).join(format!("obs{}", k));
         let _ = std::fs::remove_dir_all(&dir); std::fs::create_dir_all(&dir).unwrap();
         let mut scn = RScn{dir : dir.clone(), xlog : Path::new(base).join(format!("obs{}.xlog", k)), bin : bin.to_string(), rules : vec![], ord : ord.into_iter().collect(),
-            dict : BTreeMap::new(), rids : BTreeMap::new(), shs : BTreeMap::new(), out : vec![]};
+            dict : BTreeMap::new(), rids : BTreeMap::new(), shs : BTreeMap::new(), out : vec![], run_toggle : false};
         scn.learn(b"");
         scn.out.push(json!({"a" : "reset", "sc" : format!("real{}.{}", seed, k), "ord" : scn.ord, "clock" : "distinct", "real" : true}));
         scn.set_rules(&rules);
